@@ -18,8 +18,8 @@ CHECKS = {
         technique="Coq theorems (list induction over fixed-width leaf sequences, length arithmetic) about executable layout models + executable serde data-model trees, tied to credx by round-trip, tree-dump and byte-for-byte differential correspondence"),
     "C20": dict(
         text="PARTIAL. Theorems, for every input: the claim text parser, the claim byte parser and both scalar unpackers never reach a checked primitive (range slicing, array indexing, the scalar library's panicking hex decoder) with an argument on which it unwinds; the structural skeleton of Presentation::verify (dispatch, reported-claim comparison, hidden-message index walk of both suites, every verifier's structural tests, response-count and index checks of both proofs of signature knowledge) never unwinds for any structure (missing entries, dangling / mistyped references, unsorted or out-of-range indices, response vectors and keys of any length) and any outcome of every cryptographic test, and a structure it rejects when every test passes is rejected whatever the tests say. Termination is structural. "
-             "Presentation::create, blind-request handling, to_unblinded, the serde decoders and the hand-written byte codecs have no Coq model of their control flow in this property: they are covered by the mutation harness only. "
-             "Correspondence / search: all strings of length 0..3 (thorough 0..4) over an 18-symbol alphabet plus prefixed and random strings, byte strings and scalars for the parsers (full result compared with the model); one structural mutation at every key, index, reference, list and flag (sampled for retyping and leaf bytes) of the CBOR tree of presentations, schemas, credential maps, issuer public data, blind requests, known/blind claim maps and blind bundles, both suites, decoded and handed to verify (compared with the skeleton), create, blind_sign_credential, to_unblinded, BlindCredentialRequest::new and the decryption methods; byte-level mutations of CBOR/BARE/JSON encodings; arbitrary and mutated bytes for every hand-written from_bytes. Any panic is reported with its source location.",
+             "The same for the skeleton of Presentation::create with get_message_types and the equality builder (every credential map and statement list with unique map keys; invariants on the shared-blinder marks, the proof-message table and the builder-index map) and for the skeletons of blind-request creation, blind signing with context verification, request verification and unblinding. The serde decoders and the hand-written byte codecs have no Coq model of their control flow in this property (the codecs have one under C19): they are covered by the mutation harness only. "
+             "Correspondence / search: all strings of length 0..3 (thorough 0..4) over an 18-symbol alphabet plus prefixed and random strings, byte strings and scalars for the parsers (full result compared with the model); one structural mutation at every key, index, reference, list and flag (sampled for retyping and leaf bytes) of the CBOR tree of presentations, schemas, credential maps, issuer public data, blind requests, known/blind claim maps and blind bundles, both suites, decoded and handed to verify, create, blind_sign_credential, BlindCredentialRequest::verify, to_unblinded, BlindCredentialRequest::new (each compared with its skeleton evaluated under the all-pass oracle) and the decryption methods; byte-level mutations of CBOR/BARE/JSON encodings; arbitrary and mutated bytes for every hand-written from_bytes. Any panic is reported with its source location.",
         design="§7 C20, §14",
         note="A panic inside a third-party crate is visible only to the harness. Known finding: JSON decoding panics inside blstrs_plus' hex decoder. Not exercised: BBS CompressedPublicKey::decompress with an attacker-chosen max_messages (allocation proportional to the count).",
         technique="Coq theorems (induction over the index walk with the cursor invariant j <= i, pigeonhole bound on the known-index set, case analysis of every branch) about executable models with panicking primitives + mutation-based differential correspondence / panic search against credx"),
